@@ -3,7 +3,7 @@
 # usage: [VERIF_DIR=<spare worktree>] seed_campaign.sh [id ...]      (default: every seeded/C??-* directory)
 # Output: one line per change.  (Phase 1 in parallel, phase 2 serial because checks share <verif dir>/_build.)
 V=${VERIF_DIR:-/verif}; cd $V
-if [ $# -gt 0 ]; then IDS="$@"; else IDS=$(ls -d seeded/C??-? seeded/C??-r2 seeded/C??-r3 seeded/C??-r4? seeded/C??-r5? seeded/C??-r6? | sed 's#seeded/##'); fi
+if [ $# -gt 0 ]; then IDS="$@"; else IDS=$(ls -d seeded/C??-? seeded/C??-r2 seeded/C??-r3 seeded/C??-r4? seeded/C??-r5? seeded/C??-r6? seeded/C??-r7? | sed 's#seeded/##'); fi
 T=$(echo $IDS | md5sum | cut -c1-6)
 for id in $IDS; do p=${id%-*}; echo "$p /verif/seeded/$id $id"; done \
   | xargs -P 4 -L 1 /verif/tools/seed_verify.sh 2>&1 | grep -v WARNING | sort > _build/seed_campaign.verify.$T.txt
